@@ -162,6 +162,12 @@ def build_tree(root, tree0, rng, extra=0):
         put('2023010112000000_50001234', _pel(0x50001234), 0x50001234)
         if rng.random() < .6:
             put('2023010112000001_00001234', _pel(0x00001234), 0x00001234)
+    if rng.random() < .4:
+        # directory entries that are neither regular files nor directories: a dangling symbolic link and a link
+        # to a directory (their names carry no id); no mode may remove or follow them
+        os.symlink('/nonexistent/verif-c11-target', os.path.join(pels, rng.choice(['a_dangling', 'zz_dangling.pel'])))
+        if rng.random() < .5:
+            os.symlink(os.path.join(root, 'out'), os.path.join(pels, 'link_to_out'))
     with open(os.path.join(root, 'exclude.txt'), 'w') as f:
         f.write('BD8D0A02\n')
     return names, eids
@@ -264,7 +270,7 @@ def run_case(case):
         argv, idu, fpath = argv_for(c, root, names, rng)
         res = seams.run_cli(argv)
         after = snapshot(root, eids)
-        shape = all(e['type'] in ('f', 'd') for e in before + after)
+        shape = all(e['type'] in ('f', 'd', 'l') for e in before + after)
         recs.append(dict(shape_ok=shape, origin=case['origin'], step=step, cmd=c, named=c.get('named', []),
                          clean=bool(c.get('clean', False)),
                          argv=[a.replace(root, '<root>') for a in argv],
